@@ -333,6 +333,12 @@ impl<'a, 'ast> Visit<'ast> for Ctx<'a> {
                     self.c12.push(s);
                 }
             }
+            "consume_token" | "expect_token" | "consume_tokens" if tokens_mention(e.args.to_token_stream(), "SemiColon") > 0 => {
+                // a statement parser that consumes the separator
+                let mut s = self.site("semi", &whole, &whole);
+                s.head = m.clone();
+                self.c11.push(s);
+            }
             "try_decrease" => {
                 let s = self.site("guard", &whole, &whole);
                 self.guards.push(s);
@@ -408,11 +414,11 @@ impl<'a, 'ast> Visit<'ast> for Ctx<'a> {
                     names: BTreeSet::new(), text: short(p), line: line_of(p),
                 });
             }
-            if last == "EOF" || last == "SemiColon" {
+            if last == "EOF" {
                 self.c11.push(Site {
                     file: self.file.clone(),
                     func: self.func.clone(),
-                    kind: if last == "EOF" { "eof".into() } else { "semi".into() },
+                    kind: "eof".into(),
                     head: "-".into(),
                     names: BTreeSet::new(),
                     text: short(p),
@@ -431,7 +437,7 @@ impl<'a, 'ast> Visit<'ast> for Ctx<'a> {
                 });
             }
         }
-        for (name, kind) in [("EOF", "eof"), ("SemiColon", "semi")] {
+        for (name, kind) in [("EOF", "eof")] {
             for _ in 0..tokens_mention(m.tokens.clone(), name) {
                 self.c11.push(Site {
                     file: self.file.clone(),
